@@ -11,7 +11,7 @@ TRUSTED = ["harness/pipe.cpp drives the real classes along the documented workfl
 ASSUMPTIONS = ["exact real/complex arithmetic in the theorems; tolerance tests idealised unless stated",
                "numerical comparison tolerance: proven budget + 1e-9 relative rounding slack"]
 LEVEL_TEXT = 'Proof: simplex_closed_form (the nested time-ordered integral of one world line equals the Hafermann multi-term in all four resonance classes) -> ordered_lehmann -> chi_lehmann (the signed sum over the six orderings of the definition equals the six-ordering Lehmann sum for every spectrum and every fermionic triple), composed with chi4_multiterm/chi4_perms (coefficients, term evaluation, frequency permutation {z1,z2,-z3}[perm] and sign table extracted from the source). Tie: differential oracle on both evaluation paths.'
-LEVEL_NOTE = 'Trusted: as C01; time ordering formalised as the signed sum over the six ordered simplices; term merging with pole averaging and the 1e-8 resonance window are idealised (exact) in the theorems; the world-line enumeration of TwoParticleGFPart::compute (sparse rows/columns, chaseIndices, coeff look-ups) is modelled (Model/Chi4Part.lean, guard flags extracted) and PROVED to visit every stored quadruple exactly once, hence to sum to the ordered Lehmann sum block by block; that model is tied to the code by the extracted flags and the numeric oracle. The two term containers (TermList with the extracted Compare) are proved to conserve coefficients and to drop only terms below Tolerance/n (Properties/C02Terms.lean); the two IsNegligible predicates are hand-written there.'
+LEVEL_NOTE = 'Trusted: as C01; time ordering formalised as the signed sum over the six ordered simplices; term merging with pole averaging and the 1e-8 resonance window are idealised (exact) in the theorems; the world-line enumeration of TwoParticleGFPart::compute (sparse rows/columns, chaseIndices, coeff look-ups) is modelled (Model/Chi4Part.lean, guard flags extracted) and PROVED to visit every stored quadruple exactly once, hence to sum to the ordered Lehmann sum block by block; that model is tied to the code by the extracted flags and the numeric oracle. The two term containers (TermList with the extracted Compare) are proved to conserve coefficients and to drop only terms below Tolerance/n (Properties/C02Terms.lean); Compare and both IsNegligible predicates are extracted by the translator.'
 TECHNIQUE = 'Lean 4/Mathlib proof (nested FTC + algebra) over extracted multi-term formulas + differential oracle'
 DESIGN_REF = "DESIGN.md section 6, C02"
 
